@@ -72,14 +72,33 @@ fn inhabitants(t: &M, first_only: bool) -> Vec<(String, M)> {
 
 // Elimination contexts. An accepted program whose reported type is a function type over a simple domain
 // is, applied to a closed argument of that domain, another program: `(P) a`. If the front end accepts it
-// (it should; if it does not, nothing is concluded) it is examined like every other program, and so is
-// its application to a second argument. This is where a checker that accepted P at the wrong type shows
+// (it should; if it does not, nothing is concluded) it is examined like every other program, and so are
+// its applications to a second, third and fourth argument (two candidate arguments for the first
+// parameter, one for each further one) and, when the result is an integer or a boolean, the result used
+// as one (`(..) + 1`, `if (..) then 1 else 2`). This is where a checker that accepted P at the wrong type shows
 // at run time: the monitors of C01, C02, C04 and C06 see the states of `(P) a`.
 // The only type-level computation that `(P) a` adds to that of P is the instance of the codomain at a;
 // an argument for which the reference does not bring that instance to weak-head normal form well within
 // its fuel is left out (divergence written in the program is not a finding).
 fn applications(text: &str, ty: &M, which: Which, tier: Tier, depth: usize) {
-    if depth >= 2 || ty.has_hole() {
+    if ty.has_hole() {
+        return;
+    }
+    // the result of an application, used where its reported type says it can be used
+    if (1..=4).contains(&depth) {
+        match ty {
+            M::Int => {
+                count!("derived_uses");
+                examine_at(&format!("({text}) + 1"), which, tier, 9);
+            }
+            M::Bool => {
+                count!("derived_uses");
+                examine_at(&format!("if ({text}) then 1 else 2"), which, tier, 9);
+            }
+            _ => {}
+        }
+    }
+    if depth >= 4 {
         return;
     }
     let mut ck = typing::Checker::new(sem::TYPING_FUEL / 4);
@@ -135,7 +154,7 @@ fn examine_at(text: &str, which: Which, tier: Tier, depth: usize) {
                 // terminate in the reference (a recursive function applied for the first time) is
                 // divergence written in the program, not a finding
                 Which::C06 if depth > 0 && !matches!(interp::run(&acc.source, 20_000), Outcome::Value(_) | Outcome::DivisionByZero) => count!("skipped_divergent"),
-                _ => run(text, &acc, which, tier),
+                _ => run(text, &acc, which, tier, depth),
             }
             applications(text, &acc.ty, which, tier, depth);
         }
@@ -186,7 +205,7 @@ fn is_annotation_defect(acc: &Accepted) -> bool {
     !ck.exhausted && r.is_ok()
 }
 
-fn run(text: &str, acc: &Accepted, which: Which, tier: Tier) {
+fn run(text: &str, acc: &Accepted, which: Which, tier: Tier, depth: usize) {
     let h = horizon(tier);
     // expectations from the reference, computed on the source program (annotations play no part)
     let expected = if which == Which::C02 { Some(interp::run(&acc.source, sem::INTERP_FUEL)) } else { None };
@@ -226,8 +245,9 @@ fn run(text: &str, acc: &Accepted, which: Which, tier: Tier) {
                 }
             }
             Which::C04 => {
-                // subject reduction: every state has the reported type
-                if k <= 24 {
+                // subject reduction: every state has the reported type (the first 25 states; the first 8
+                // of a derived application)
+                if k <= if depth > 0 { 7 } else { 24 } {
                     match sem::reference_check(state, Some(&acc.ty)) {
                         RefVerdict::WellTyped => count!("traces_validated"),
                         RefVerdict::Unknown => count!("skipped_fuel"),
